@@ -127,11 +127,15 @@ def run(R):
                      "min-selection keys and further cost arithmetic, never an operand of a plan aggregate")
     R.rule("C02-R6", "correlated versus uncorrelated joins: hash / nested-loop candidates (right side evaluated on the unit input) "
                      "are offered only when the right operand is input-transparent")
+    R.rule("C02-R7", "parallel execution sees its whole input: what the rayon workers of the executor iterate over reaches them from the "
+                     "operator's input rows only through element-preserving steps (par_chunks / par_iter / into_par_iter ...); no "
+                     "hand-computed batches, no truncating adaptor - otherwise the answer depends on the thread count")
     r1(R)
     r2(R)
     r3(R)
     r4(R)
     r6(R)
+    r7(R)
 
 
 def r1(R):
@@ -441,3 +445,33 @@ def r6(R):
         R.ob("C02-R6", "guarded:" + str(v), "the %s candidate is offered only under a test of the right operand" % v, ok, where=fb.where(ln),
              detail=None if ok else "bind join evaluates the right operand with the left rows as input, hash / nested-loop evaluate it on "
              "the unit input: for an input-sensitive right operand (Filter/Bind over outer variables) they disagree")
+
+
+def r7(R):
+    from lib import pipeline as P
+    prog = R.prog
+    n = 0
+    for b in sorted(prog.bodies.values(), key=lambda x: x.key):
+        if b.crate != "kolibrie" or "::tests::" in b.key or not (b.file.endswith("execution/engine.rs") or b.file.endswith("execute_query.rs")):
+            continue
+        for c in b.calls():
+            if c.name() not in ("map", "flat_map", "flat_map_iter", "filter_map", "for_each", "map_init", "fold", "try_for_each") or len(c.args) < 2:
+                continue
+            if "rayon" not in ((c.callee or "") + (c.pretty or "")):
+                continue
+            n += 1
+            R.saw(b)
+            terms = []
+            P.coverage_terminals(prog, b, c.args[0], set(), terms)
+            def whole(t):
+                # the operator's input parameter, a captured collection, or the complete result of a (child) execution
+                return t[0] in ("param", "doc", "capture") or (t[0] == "call" and len(t) > 3 and t[3].startswith("kolibrie::"))
+            roots = [t for t in terms if whole(t)]
+            other = [t for t in terms if not whole(t)]
+            ok = len(roots) >= 1 and not other
+            R.ob("C02-R7", "coverage:%s:%s" % (b.short, c.name()), "the parallel `%s` in %s ranges over its whole input (%s)" % (c.name(), b.short,
+                 ", ".join(sorted({str(t[1]) for t in roots})) or "?"), ok, where=b.where(c.ln),
+                 detail=None if ok else "not a total partition by construction: also computed from %s - rows outside the hand-made batches "
+                 "(a division remainder) are never processed, and how many depends on the worker count"
+                 % "; ".join(sorted({"%s%s" % (t[1], (" (line %s)" % t[2]) if t[2] else "") for t in other})))
+    R.floor("C02-R7", "rayon worker pipelines in the executor", n, 1)
